@@ -28,6 +28,9 @@ type c19Case struct {
 	// Custom: the VM has host-registered custom dice whose text is multi-byte / spans a line break (regex 暗骰(\d+), E(\d+);
 	// stream parser for M<LF><digits>)
 	Custom bool `json:",omitempty"`
+	// Then: inputs parsed on the SAME VM after Src was rejected; the error object of Src is rendered again afterwards and must
+	// read exactly as it did at first
+	Then []string `json:",omitempty"`
 }
 
 var errTokens = []string{
@@ -35,7 +38,7 @@ var errTokens = []string{
 	"if ", "while ", "=", ",", "😀", "é", "\xff", ".", ":", "?", "&", "break", "^st", "d", "else ", "continue", "%",
 }
 
-var errPrefixes = []string{"", "\n", "\n\n  ", strings.Repeat("1+", 35), strings.Repeat("技能+", 15), "x=1;\r\n"}
+var errPrefixes = []string{"", "\n", "\n\n  ", strings.Repeat("1+", 35), strings.Repeat("技能+", 15), "x=1;\r\n", "\ufeff", "\ufeff\n"}
 
 func c19Enumerate(tier string, seed int64, emit func(string, any)) {
 	thorough := tier == "thorough"
@@ -57,7 +60,7 @@ func c19Enumerate(tier string, seed int64, emit func(string, any)) {
 				one(p + s)
 			}
 		} else {
-			one(errPrefixes[1+len(s)%5] + s)
+			one(errPrefixes[1+len(s)%7] + s)
 		}
 	})
 	if thorough {
@@ -68,6 +71,14 @@ func c19Enumerate(tier string, seed int64, emit func(string, any)) {
 		for lang := 0; lang < 3; lang++ {
 			for g := 1; g <= 2; g++ {
 				emit("sequential/package-level selector set", c19Case{Src: s, Lang: lang, Global: g})
+			}
+		}
+	})
+	// an error object that is kept while the VM goes on parsing other inputs (longer, shorter, multi-line, accepted, rejected)
+	gen.StringsUpTo(errTokens, 2, func(s string) {
+		for lang := 0; lang < 3; lang++ {
+			for _, pre := range []string{"(1 +\n", "[技能,\n  "} { // an opening bracket: the input is rejected unless the tokens close it
+				emit("sequential/error rendered after later parses on the same VM", c19Case{Src: pre + s, Lang: lang, Then: []string{"7", "(\n\n(", strings.Repeat("技能 + ", 12) + ")", ""}})
 			}
 		}
 	})
@@ -283,6 +294,18 @@ func c19Run(raw json.RawMessage) harn.Result {
 	res.Nontrivial = true
 	res.Outcome = "rejected"
 	msg := err.Error()
+	if len(c.Then) > 0 {
+		for _, t := range c.Then {
+			if site, p := harn.Guard(func() { _ = vm.Run(t) }); p {
+				res.Violations = append(res.Violations, harn.Violation{Signature: site, What: fmt.Sprintf("panic parsing %q after %q", t, c.Src)})
+				return res
+			}
+		}
+		if again := err.Error(); again != msg {
+			res.Violations = append(res.Violations, harn.Violation{Signature: "C19:held-error-changes", What: fmt.Sprintf("input %q lang=%d: the error read\n%s\nwhen it was returned and\n%s\nafter the VM had parsed %q", c.Src, c.Lang, msg, again, c.Then)})
+			return res
+		}
+	}
 	if strings.Contains(msg, "语法错误") || strings.Contains(msg, "Syntax Error") {
 		res.Stats["friendly_errors"]++
 	} else {
